@@ -255,10 +255,29 @@ func c13Forwarding(w *World, r *Report, ctxI *types.Interface) {
 				fns = append(fns, withClosures(callee)...)
 			}
 		}
+		// ... and small helpers of the same package these call (depth 1)
+		seenFn := map[*ssa.Function]bool{}
+		for _, g := range fns {
+			seenFn[g] = true
+		}
+		for _, g := range append([]*ssa.Function{}, fns...) {
+			for _, c := range callsIn(g) {
+				if callee := c.Common().StaticCallee(); callee != nil && callee.Blocks != nil && !seenFn[callee] && fnPkgPath(callee) == fnPkgPath(fin) {
+					seenFn[callee] = true
+					fns = append(fns, withClosures(callee)...)
+				}
+			}
+		}
 		r.Analysed(w.FnName(fin))
 		ok, msg, n := true, "", 0
-		isUpstreamStore := func(v ssa.Value) bool {
+		var isUpstreamStore func(v ssa.Value) bool
+		isUpstreamStore = func(v ssa.Value) bool {
 			for _, o := range w.Origins(v, nil) {
+				if pa, isParam := o.(*ssa.Parameter); isParam {
+					if b := bindParam(pa); b != ssa.Value(pa) && isUpstreamStore(b) {
+						return true
+					}
+				}
 				if oc, _ := resultOfCall(o); oc != nil && methodCallNamed(oc.Common(), "UpstreamHeaders") {
 					return true
 				}
